@@ -89,6 +89,11 @@ def run(prop, tier, seed):
             cfg = dict(policy='lru' if stats else 'lrs', cull=0, limit=2 ** 30, stats=stats, now=1)
             jobs.append((cfg, name, init, ops, tid))
             tid += 1000
+    # the victim creates the cache itself (first open of an empty directory), then works
+    for stats in (False, True):
+        cfg = dict(policy='lfu' if stats else 'lru', cull=0, limit=2 ** 29, stats=stats, now=1, fresh=1)
+        jobs.append((cfg, 'create-then-set', [], [op('set', k=KA, v=5, ttl=[], tag=0), op('set', k=KB, v=F1, ttl=[], tag=0)], tid))
+        tid += 1000
     design_level(out, 'C07', tier)
     res = pmap(_enum, jobs, procs=14)
     traces = [t for lst in res for t in lst]
